@@ -14,7 +14,7 @@ CONFIG = dict(
              "UnloadWallet removes a wallet from memory by design. Proved counterexample (known finding F19a): unload then re-create from "
              "the same seed leaves two files with one fingerprint and a fresh service refuses to start. "
              "Tie: a real wallet.Service on a scratch directory; after EVERY operation a second wallet.NewService is started on the same "
-             "directory and both are dumped canonically (file name, type, label, encrypted, temporary, entry counts, fingerprint); read-only calls (GetWalletSeed, ViewSecrets, GetWallet/GetWallets) are in the op mix and are identities in the model (read_only_no_change); the serialised BYTES of every wallet in memory, raw secrets blob included, are compared with the freshly started service after every operation; wallets are backdated through Service.Update / UpdateSecrets (labels `<text>@<secs>`) so that operations act on wallets older than the current second and meta.tm takes part in that comparison; the "
+             "directory and both are dumped canonically (file name, type, label, encrypted, temporary, entry counts, fingerprint); read-only calls (GetWalletSeed, ViewSecrets, GetWallet/GetWallets) are in the op mix and are identities in the model (read_only_no_change); the serialised BYTES of every wallet in memory, raw secrets blob included, are compared with the freshly started service after every operation; the service under test is itself restarted (a new NewService on the populated directory receives the following operations, duplicate-seed creates after it must be refused); wallets are backdated through Service.Update / UpdateSecrets (labels `<text>@<secs>`) so that operations act on wallets older than the current second and meta.tm takes part in that comparison; the "
              "driver predicts result kind and both dumps from the model and evaluates the property on the implementation's own line.",
         note="Save is atomic in the model (crash behaviour is C20). Wallet content is abstracted to what the dump observes; secrets are "
              "exercised indirectly (operations that need the right password succeed/fail as predicted). sha256-xor is used so that "
